@@ -22,7 +22,7 @@ from fractions import Fraction as Fr
 from lib.rat import R, F, close, dev
 
 ID = "C15"
-QUICK_N = 700
+QUICK_N = 3000
 THOROUGH_N = 20000
 QUICK_BUDGET_S = 80
 THOROUGH_BUDGET_S = 900
